@@ -8,9 +8,8 @@ git checkout -q -- . ; git clean -fdq
 demo=$(ls $out/m${k}_demo_test.go 2>/dev/null)
 [ -z "$demo" ] && { echo "$id m$k: no demo test file"; ls $out; exit 2; }
 # placement: first path-looking token in the header comment that names a package dir
-dir=$(grep -m1 -oE '(<worktree>|/tmp/mut-[A-Z0-9]+|\./)?/?(activeauth|bac|chipauth|cms|cryptoutils|document|iso7816|mobile|mrz|oid|pace|passiveauth|password|reader|tlv|utils|verifier|htmlreport)(/[a-z0-9]+)?/?' $demo | head -1 | sed -E 's#(<worktree>|/tmp/mut-[A-Z0-9]+|\.)/?##; s#^/##; s#/$##')
 pkgline=$(grep -m1 '^package ' $demo | awk '{print $2}')
-[ -z "$dir" ] && dir=${pkgline%_test}
+dir=${pkgline%_test}
 cp $demo $wt/$dir/zz_m${k}_demo_test.go
 run=$(grep -m1 -oE 'Test[A-Za-z0-9_]+' $demo | head -1)
 pat=$(grep -oE '^func (Test[A-Za-z0-9_]+)' $demo | awk '{print $2}' | paste -sd'|')
